@@ -3,6 +3,16 @@
     This file holds the independent oracles (specifications) and [check]. No proofs here. *)
 From Verif Require Import Base.Prelude Base.C08_BE Model.C08_File Model.C08_Index.
 
+(** byte strings in case terms: 8-byte big-endian words, the last one of [lastn] bytes *)
+Fixpoint hx_aux (n : nat) (v : N) (acc : bytes) : bytes :=
+  match n with O => acc | S n' => hx_aux n' (N.shiftr v 8) (N.land v 255 :: acc) end.
+Fixpoint hb (ws : list N) (lastn : nat) : bytes :=
+  match ws with
+  | [] => []
+  | [w] => hx_aux lastn w []
+  | w :: r => hx_aux 8 w [] ++ hb r lastn
+  end.
+
 (** ** Specifications over the written content [all] (linear scans, no binary search, no merge walk) *)
 Definition sp_find (all : list ikey) (k : key) : option ikey := find (fun ik => keqb (ik_key ik) k) all.
 Definition sp_entries all k : list entry := match sp_find all k with Some ik => ik_ents ik | None => [] end.
